@@ -1186,4 +1186,214 @@ theorem checkFrom_mismatch : ∀ (ts : List Ty) (i j : Nat) (lh lm : Layout),
       have : j - i = (j - (i + 1)) + 1 := by omega
       rw [this]; simpa using hu
 
+/-! ### no panic site is left on the grid (since /repo 24ea36f the overflow sites return `None`) -/
+
+/-- the computation does not end in a panic -/
+def NoPanic {α : Type} (x : Except Err α) : Prop := ∀ msg, x ≠ .error (.panic msg)
+
+theorem noPanic_ok {α : Type} (a : α) : NoPanic (.ok a : Except Err α) := by intro msg h; cases h
+theorem noPanic_unknown {α : Type} : NoPanic (.error .unknown : Except Err α) := by intro msg h; cases h
+
+theorem memberStep_noPanic (acc ml : Layout) : NoPanic (memberStep acc ml) := by
+  intro msg h
+  unfold memberStep at h
+  split at h
+  · rename_i e he; cases h; exact nextMultipleOf?_no_panic he
+  · split at h
+    · rename_i e he; cases h; exact addU32?_no_panic he
+    · cases h
+
+mutual
+theorem get_noPanic (m : Mode) : ∀ t : Ty, wf t = true → NoPanic (get m t)
+  | .scalar s, hw => by
+    simp only [wf] at hw
+    rw [get_scalar m s hw]; exact noPanic_ok _
+  | .vec s n, hw => by
+    simp only [wf, Bool.and_eq_true, decide_eq_true_eq] at hw
+    rw [get_vec m s n hw.1 hw.2]; exact noPanic_ok _
+  | .enum u, hw => by
+    simp only [wf] at hw
+    rw [get_enum m u hw]; exact noPanic_ok _
+  | .other _, hw => by simp [wf] at hw
+  | .arr t n, hw => by
+    simp only [wf, Bool.and_eq_true, decide_eq_true_eq] at hw
+    have ih := get_noPanic m t hw.2
+    intro msg h
+    simp only [Model.Layout.get] at h
+    split at h
+    · rename_i e he; cases h; exact ih msg he
+    · rw [array_ops_pinned] at h
+      split at h
+      · split at h
+        · cases h
+        · rename_i e he; cases h; exact mulU32?_no_panic he
+      · cases h
+  | .struct .nil, _ => by rw [get_empty]; exact noPanic_ok _
+  | .struct (.cons t ts), hw => by
+    simp only [wf] at hw
+    have ih := getMembers_noPanic m (.cons t ts) ⟨structInit.1, structInit.2⟩ hw
+    intro msg h
+    simp only [Model.Layout.get] at h
+    split at h
+    · rename_i e he; cases h; exact ih msg he
+    · rw [final_ops_pinned] at h
+      split at h
+      · cases h
+      · rename_i e he; cases h; exact nextMultipleOf?_no_panic he
+theorem getMembers_noPanic (m : Mode) : ∀ (ts : Tys) (acc : Layout), wfAll ts = true →
+    NoPanic (getMembers m ts acc)
+  | .nil, acc, _ => by simp only [getMembers]; exact noPanic_ok _
+  | .cons t ts, acc, hw => by
+    simp only [wfAll, Bool.and_eq_true] at hw
+    have iht := get_noPanic m t hw.1
+    intro msg h
+    simp only [getMembers] at h
+    split at h
+    · rename_i e he; cases h; exact iht msg he
+    · rw [member_ops_pinned] at h
+      split at h
+      · rename_i e he; cases h; exact memberStep_noPanic _ _ msg he
+      · rename_i acc' _
+        exact getMembers_noPanic m ts acc' hw.2 msg h
+end
+
+theorem memberOff_noPanic (lh lm : Layout) (rec : Except Err Bool) (ch cm : Nat) (hr : NoPanic rec) :
+    NoPanic (memberOff lh lm rec ch cm) := by
+  intro msg h
+  unfold memberOff at h
+  split at h
+  · rename_i e he; cases h; exact nextMultipleOf?_no_panic he
+  · split at h
+    · rename_i e he; cases h; exact nextMultipleOf?_no_panic he
+    · split at h
+      · cases h
+      · split at h
+        · rename_i e; cases h; exact hr msg rfl
+        · cases h
+        · split at h
+          · rename_i e he; cases h; exact addU32?_no_panic he
+          · split at h
+            · rename_i e he; cases h; exact addU32?_no_panic he
+            · cases h
+
+theorem arrayOff_noPanic (lh lm : Layout) (rec : Except Err Bool) (n : Nat) (hr : NoPanic rec) :
+    NoPanic (arrayOff lh lm rec n) := by
+  intro msg h
+  unfold arrayOff at h
+  split at h
+  · cases h
+  · split at h
+    · split at h
+      · rename_i e he; cases h; exact nextMultipleOf?_no_panic he
+      · split at h
+        · rename_i e he; cases h; exact nextMultipleOf?_no_panic he
+        · split at h
+          · cases h
+          · exact hr msg h
+    · exact hr msg h
+
+mutual
+theorem offsetsMatch_noPanic : ∀ t : Ty, wf t = true → NoPanic (offsetsMatch t)
+  | .scalar _, _ => noPanic_ok _
+  | .vec _ _, _ => noPanic_ok _
+  | .enum _, _ => noPanic_ok _
+  | .other _, _ => noPanic_ok _
+  | .struct ms, hw => by
+    simp only [wf] at hw
+    simp only [offsetsMatch]
+    exact offsetsMembers_noPanic ms _ _ hw
+  | .arr t n, hw => by
+    simp only [wf, Bool.and_eq_true, decide_eq_true_eq] at hw
+    have hn : n ≠ 0 := by omega
+    have ih := offsetsMatch_noPanic t hw.2
+    intro msg h
+    simp only [offsetsMatch] at h
+    cases gh : Model.Layout.get .hlsl t with
+    | error e =>
+      rw [gh, array_off_errH e _ _ n _ hn] at h
+      cases h; exact get_noPanic .hlsl t hw.2 msg gh
+    | ok lh =>
+      cases gm : Model.Layout.get .metal t with
+      | error e =>
+        rw [gh, gm, array_off_errM lh e _ n _ hn] at h
+        cases h; exact get_noPanic .metal t hw.2 msg gm
+      | ok lm =>
+        rw [gh, gm, array_off_pinned lh lm _ n _ hn] at h
+        cases hao : arrayOff lh lm (offsetsMatch t) n with
+        | error e => rw [hao] at h; cases h; exact arrayOff_noPanic lh lm _ n ih msg hao
+        | ok b => rw [hao] at h; cases h
+theorem offsetsMembers_noPanic : ∀ (ts : Tys) (ch cm : Nat), wfAll ts = true →
+    NoPanic (offsetsMembers ts ch cm)
+  | .nil, _, _, _ => noPanic_ok _
+  | .cons t ts, ch, cm, hw => by
+    simp only [wfAll, Bool.and_eq_true] at hw
+    have iht := offsetsMatch_noPanic t hw.1
+    intro msg h
+    simp only [offsetsMembers] at h
+    cases gh : Model.Layout.get .hlsl t with
+    | error e =>
+      rw [gh, member_off_errH] at h
+      cases h; exact get_noPanic .hlsl t hw.1 msg gh
+    | ok lh =>
+      cases gm : Model.Layout.get .metal t with
+      | error e =>
+        rw [gh, gm, member_off_errM] at h
+        cases h; exact get_noPanic .metal t hw.1 msg gm
+      | ok lm =>
+        rw [gh, gm, member_off_pinned] at h
+        cases hmo : memberOff lh lm (offsetsMatch t) ch cm with
+        | error e => rw [hmo] at h; cases h; exact memberOff_noPanic lh lm _ ch cm iht msg hmo
+        | ok fl =>
+          rw [hmo] at h
+          cases fl with
+          | ret b => cases h
+          | next s => exact offsetsMembers_noPanic ts s.ch s.cm hw.2 msg h
+end
+
+/-- **no panic on the grid, whatever the sizes**: every overflow site of `get_type_layout` / `offsets_match`
+    returns `None`, the unchecked rounding of `check_layout` itself cannot overflow (a size is a multiple of its
+    alignment) -/
+theorem checkOne_noPanic (t : Ty) (hw : wf t = true) : NoPanic (checkOne t) := by
+  intro msg h
+  unfold checkOne at h
+  split at h
+  · rename_i e he; cases h; exact get_noPanic .hlsl t hw msg he
+  · rename_i lh hlh
+    split at h
+    · rename_i e he; cases h; exact get_noPanic .metal t hw msg he
+    · rename_i lm hlm
+      obtain ⟨s1, a1⟩ := get_spec .hlsl t lh hw hlh
+      obtain ⟨s2, a2⟩ := get_spec .metal t lm hw hlm
+      have p1 := align_pos .hlsl t hw
+      have p2 := align_pos .metal t hw
+      have n1 : nextMultipleOf lh.size lh.align = .ok lh.size := by
+        rw [s1, a1]
+        unfold nextMultipleOf
+        have hb : align .hlsl t ≠ 0 := by omega
+        simp only [hb, if_false, size_mod_align _ t hw, if_true]
+      have n2 : nextMultipleOf lm.size lm.align = .ok lm.size := by
+        rw [s2, a2]
+        unfold nextMultipleOf
+        have hb : align .metal t ≠ 0 := by omega
+        simp only [hb, if_false, size_mod_align _ t hw, if_true]
+      rw [top_ops_pinned, top_ops_pinned, n1, n2] at h
+      have hom : hasOffsetsMatch = true := rfl
+      simp only [hom, if_true] at h
+      split at h
+      · rename_i e he; cases h; exact offsetsMatch_noPanic t hw msg he
+      · split at h <;> cases h
+
+theorem checkFrom_noPanic : ∀ (ts : List Ty) (i : Nat), (∀ t ∈ ts, wf t = true) → ∀ msg, checkFrom i ts ≠ .panic msg
+  | [], _, _, msg => by simp [checkFrom]
+  | t :: ts, i, hw, msg => by
+    intro h
+    unfold checkFrom at h
+    split at h
+    · cases h
+    · rename_i m' hc
+      cases h
+      exact checkOne_noPanic t (hw t (List.mem_cons_self ..)) _ hc
+    · cases h
+    · exact checkFrom_noPanic ts (i + 1) (fun u hu => hw u (List.mem_cons_of_mem _ hu)) msg h
+
 end RsslVerif.Lemmas.Layout
